@@ -433,9 +433,13 @@ def check_encoding(prog, rep, m):
         colv = [v_ for v_, p_ in eqs if p_ == pc[0]][0]
         for s_ in n.body:
             c = s_.value if isinstance(s_, ast.Expr) else None
-            if isinstance(c, ast.Call) and short(c) == '_set_visibility' and len(c.args) == 4 and T(c.args[0]) in init.params and \
-                    T(c.args[1]) == rowv and T(c.args[2]) == colv and const(c.args[3]) == 180:
-                ok = True
+            sv_ = m.funcs.get('_set_visibility')
+            if isinstance(c, ast.Call) and short(c) == '_set_visibility' and sv_ is not None:
+                b_ = dict(zip(sv_.params, c.args))
+                b_.update({k_.arg: k_.value for k_ in c.keywords if k_.arg})
+                a_ = [b_.get(p_) for p_ in sv_.params[:4]]
+                if all(x is not None for x in a_) and T(a_[0]) in init.params and T(a_[1]) == rowv and T(a_[2]) == colv and const(a_[3]) == 180:
+                    ok = True
     rep.add('T5', init, entry, 'observer cell = 180 and generates no events', init.node.lineno, ok, '')
     sv = m.funcs.get('_set_visibility')
     ok = sv is not None and any(T(s) == 'visibility_grid[i][j]=value' or T(s) == 'visibility_grid[i,j]=value' for s in sv.own_nodes())
